@@ -19,6 +19,13 @@ def Err.name : Err → String
   | .valueError => "ValueError" | .attributeError => "AttributeError" | .typeError => "TypeError"
   | .recursion => "RecursionError" | .runtimeError => "RuntimeError"
 
+instance {ε α : Type} [DecidableEq ε] [DecidableEq α] : DecidableEq (Except ε α) := fun a b =>
+  match a, b with
+  | .ok x, .ok y => if h : x = y then isTrue (by rw [h]) else isFalse (by intro e; cases e; exact h rfl)
+  | .error x, .error y => if h : x = y then isTrue (by rw [h]) else isFalse (by intro e; cases e; exact h rfl)
+  | .ok _, .error _ => isFalse (by intro e; cases e)
+  | .error _, .ok _ => isFalse (by intro e; cases e)
+
 variable {α : Type}
 
 /-- `list.insert` position: negative counts from the end and is clamped to 0, too large is clamped to `n`. -/
